@@ -411,12 +411,14 @@ def parseMessage(rawMessage, oobFDs):
         except KeyError:
             pass
 
-    if m.signature:
+    if m.signature is not None:
         # the field is a variant: sent as a STRING it would escape the
-        # 255 byte limit of the SIGNATURE type
+        # 255 byte limit of the SIGNATURE type, and any other type would
+        # be written out as its text when the message is passed on
         if not isinstance(m.signature, str) or len(m.signature) > 255:
             raise error.MarshallingError('Invalid signature header field')
 
+    if m.signature:
         nbytes, m.body = marshal.unmarshal(
             m.signature,
             m.rawBody,
